@@ -217,6 +217,37 @@ func ruleCarrierWrappers(c *Ctx, rule string) {
 	}
 	c.floor(rule, n, 17, "wrapped carrier operations")
 	c.floor(rule, len(types_), 4, "carrier wrapper types")
+	// a wrapper's frame-returning Recv hands out a frame of its own each time: what the embedded stream's Recv returned —
+	// never a buffer of the wrapper that the next Recv overwrites (goroutines started by the loop, e.g. the rejection
+	// reply, still read the previous frame while the loop receives the next one)
+	nRecv := 0
+	for _, fn := range w.Funcs {
+		if fn.Parent() != nil || fn.Signature.Recv() == nil || !w.isCarrierType(fn.Signature.Recv().Type()) || fn.Name() != "Recv" || fn.Signature.Results().Len() != 2 {
+			continue
+		}
+		nRecv++
+		okFresh, why := true, ""
+		forEachReturnValue(fn, 0, func(v ssa.Value, at ssa.Instruction) {
+			if isNilConst(v) {
+				return
+			}
+			o := origin(v)
+			ex, isEx := o.(*ssa.Extract)
+			if isEx && ex.Index == 0 {
+				if call, isC := ex.Tuple.(*ssa.Call); isC {
+					if k, isOp := w.carrierOp(call); isOp && k == "carrier-recv" {
+						return
+					}
+				}
+			}
+			if al, isAl := o.(*ssa.Alloc); isAl && al.Heap && al.Parent() == fn {
+				return // a frame allocated by this very call
+			}
+			okFresh, why = false, desc(v)
+		})
+		c.check(okFresh, rule, w.Short(fn)+": returns a frame of its own", posOf(w, fn), "the embedded Recv's result (or a fresh allocation)", "the wrapper's Recv returns "+why+", storage that the next Recv call overwrites: code that still holds the previous frame (the goroutine that answers a refused new_stream reads its stream id) sees the next frame's contents — the rejection goes to another RPC's id")
+	}
+	c.floor(rule, nRecv, 4, "frame-returning Recv methods of carrier wrappers")
 	// every carrier handed to a tunnel endpoint is wrapped
 	for _, name := range []string{"(*pendingChannel).Start", "newReverseChannel", "(*TunnelServiceHandler).openTunnel", "(*ReverseTunnelServer).Serve"} {
 		fn := w.roleFunc(name)
